@@ -4,10 +4,11 @@ import OpdaProofs.BetaHdCov
 import OpdaProofs.BetaBisect
 import OpdaProofs.Bisect
 import OpdaProofs.UtilsExtra
+import OpdaProofs.BetaHdV
 /-!
 # C15 — beta interval and coverage helpers
 
-Property theorems only (lemmas in `OpdaProofs/{BetaBinom,BetaCdf,HdiBound,BetaCheck,BetaBisect,Small,UtilsExtra}.lean`).
+Property theorems only (lemmas in `OpdaProofs/{BetaBinom,BetaCdf,HdiBound,BetaCheck,BetaHdCov,BetaHdV,BetaBisect,Small,UtilsExtra}.lean`).
 
 For the order-statistic parameters `(a,b) = (i, n+1−i)` the Beta(a,b) distribution function is the
 binomial tail polynomial `G a b x = Σ_{j≥a} C(m,j) x^j (1−x)^{m−j}`, `m = a+b−1` — exact in ℚ
@@ -27,6 +28,20 @@ binomial tail polynomial `G a b x = Σ_{j≥a} C(m,j) x^j (1−x)^{m−j}`, `m =
 `hd_coverage_bracket_left/right`: the exact bracket `beta.hdcov` returns contains `G(y*) − G(x)` for the end
 `y*` of the level set `{f ≥ f x}`, which by `hd_level_set` is the coverage of the smallest highest-density
 interval containing `x` — the Spec value `beta_highest_density_coverage` is compared with.
+
+**The highest-density coverage function itself** (`OpdaProofs/BetaHdV.lean`), for integers `a, b ≥ 1` not both `1`:
+`hdcov a b x` is *defined* as the Beta(a,b)-mass of the level set `{f ≥ f x}` of the density `f = s^{a−1}(1−s)^{b−1}` —
+`[x, partnerR x]` left of the mode `m`, `[partnerL x, x]` right of it, the far end being the sup/inf of the level set on the
+other side of the mode (`partner_spec`, `hd_level_set_interval`, `hdcov_spec`); the density is strictly unimodal
+(`density_strictly_unimodal`); for `a, b ≥ 2` the far end is the unique point across the mode with equal density
+(`hd_partner_equal_density`) and the level set is the shortest interval of its mass
+(`hd_coverage_is_mass_of_shortest_interval_left/right`: `hdcov` *is* the coverage of the smallest highest-density interval
+containing `x`).  **V shape** (`hd_coverage_v_shaped`): `hdcov a b` is strictly decreasing on `[0,m]`, strictly increasing on
+`[m,1]`, `0` at `m`, with values in `[0,1]`; `hdcov 0 = 1` (`a ≥ 2`), `hdcov 1 = 1` (`b ≥ 2`) (`hd_coverage_ends`); for `a = 1`
+it is `G`, for `b = 1` it is `1 − G` (`hd_coverage_monotone_cases`); it is measurable (`hd_coverage_measurable`).  The
+hypotheses about `y*` in `hd_coverage_bracket_left/right` are discharged: the driver's exact bracket contains `hdcov a b x`
+(`hd_coverage_bracket_contains_hdcov`).  Consumed by C01 (`ld_highest_density_cdf_continuous`).  Not proved: continuity of
+`hdcov` in `x` (not needed).
 
 Compared only (correspondence, at the property's tolerances): the *values* the library returns (they come
 from scipy's `beta.ppf/cdf` and float bisections) against those exact quantities, the inverse relation to
@@ -180,6 +195,119 @@ theorem hdi_level_bound {f : ℝ → ℝ} (hf : Continuous f) (T C1 C2 x1 x2 y2 
 (equal end densities); the certificate with `t = f(1/4)` is accepted with zero slack. -/
 example : hdiCertOK 2 2 (1/4) (3/4) (1/4) (1/4) (3/4) (3/4) (3/16) 0 = true := by decide +kernel
 example : etCheck 2 2 (11/16) (1/4) (3/4) 0 = true := by decide +kernel
+
+/-! ### the highest-density coverage function `hdcov` (what `beta_highest_density_coverage` computes) -/
+section hdcov
+open Opda.BetaHdV
+
+/-- the mode of the density `s^α (1−s)^β` -/
+theorem mode_spec (α β : ℕ) : mode α β = (α : ℝ) / ((α : ℝ) + β) := rfl
+
+/-- the density is **strictly** increasing up to the mode and **strictly** decreasing after it (for `α = 0` / `β = 0` the
+mode is the end point `0` / `1` and the density is strictly monotone on `[0,1]`) -/
+theorem density_strictly_unimodal (α β : ℕ) (hpos : 0 < α + β) :
+    StrictMonoOn (g α β) (Set.Icc 0 (mode α β)) ∧ StrictAntiOn (g α β) (Set.Icc (mode α β) 1) :=
+  ⟨g_strictMonoOn α β hpos, g_strictAntiOn α β hpos⟩
+
+/-- the far ends of the level set `{f ≥ f x}`: `partnerR x = sup {t ∈ [m,1] | f x ≤ f t}`,
+`partnerL x = inf {t ∈ [0,m] | f x ≤ f t}` -/
+theorem partner_spec (α β : ℕ) (x : ℝ) :
+    partnerR α β x = sSup {t | t ∈ Set.Icc (mode α β) 1 ∧ g α β x ≤ g α β t}
+      ∧ partnerL α β x = sInf {t | t ∈ Set.Icc 0 (mode α β) ∧ g α β x ≤ g α β t} := ⟨rfl, rfl⟩
+
+/-- **the level set of the density through `x`**: for `x ∈ [0,m]`, `partnerR x ∈ [m,1]` and inside `[0,1]`
+`{s | f x ≤ f s} = [x, partnerR x]`; for `x ∈ [m,1]`, `partnerL x ∈ [0,m]` and `{s | f x ≤ f s} = [partnerL x, x]` -/
+theorem hd_level_set_interval (α β : ℕ) (hpos : 0 < α + β) :
+    (∀ x ∈ Set.Icc 0 (mode α β), partnerR α β x ∈ Set.Icc (mode α β) 1
+        ∧ ∀ s ∈ Set.Icc (0:ℝ) 1, g α β x ≤ g α β s ↔ x ≤ s ∧ s ≤ partnerR α β x)
+      ∧ (∀ x ∈ Set.Icc (mode α β) 1, partnerL α β x ∈ Set.Icc 0 (mode α β)
+        ∧ ∀ s ∈ Set.Icc (0:ℝ) 1, g α β x ≤ g α β s ↔ partnerL α β x ≤ s ∧ s ≤ x) :=
+  ⟨fun _ hx => ⟨(partnerR_mem α β hpos hx).1, fun _ hs => levelSet_left α β hpos hx hs⟩,
+   fun _ hx => ⟨(partnerL_mem α β hpos hx).1, fun _ hs => levelSet_right α β hpos hx hs⟩⟩
+
+/-- **equal end densities** (`a, b ≥ 2`, i.e. `α, β ≥ 1`): the far end of the level set is *the* point across the mode with
+the density of `x` — the hypothesis `heq` of `hd_level_set` and `hdi_shortest` -/
+theorem hd_partner_equal_density (α β : ℕ) (hα : 0 < α) (hβ : 0 < β) :
+    (∀ x ∈ Set.Icc 0 (mode α β), g α β (partnerR α β x) = g α β x
+        ∧ ∀ y ∈ Set.Icc (mode α β) 1, g α β y = g α β x → y = partnerR α β x)
+      ∧ (∀ x ∈ Set.Icc (mode α β) 1, g α β (partnerL α β x) = g α β x
+        ∧ ∀ y ∈ Set.Icc 0 (mode α β), g α β y = g α β x → y = partnerL α β x) :=
+  ⟨fun _ hx => ⟨g_partnerR α β hβ hx, fun _ hy h => partnerR_unique α β hβ hx hy h⟩,
+   fun _ hx => ⟨g_partnerL α β hα hx, fun _ hy h => partnerL_unique α β hα hx hy h⟩⟩
+
+/-- **definition of `hdcov`**: on `[0,1]` it is the Beta(a,b)-mass of the level set `{f ≥ f x}`, `f = g (a−1) (b−1)`:
+`G (partnerR x) − G x` for `x ≤ m`, `G x − G (partnerL x)` for `x ≥ m` (both `0` at `m`); outside `[0,1]` it is continued
+constantly (`hdcov x = hdcov (max 0 (min x 1))`) -/
+theorem hdcov_spec (a b : ℕ) (ha : 0 < a) (hb : 0 < b) (hab : 2 < a + b) (x : ℝ) :
+    (x ∈ Set.Icc 0 (mode (a - 1) (b - 1)) → hdcov a b x = G a b (partnerR (a - 1) (b - 1) x) - G a b x)
+      ∧ (x ∈ Set.Icc (mode (a - 1) (b - 1)) 1 → hdcov a b x = G a b x - G a b (partnerL (a - 1) (b - 1) x))
+      ∧ hdcov a b x = hdcov a b (max 0 (min x 1)) :=
+  ⟨fun hx => (hdcov_of_mem a b ⟨hx.1, hx.2.trans (mode_le_one _ _)⟩).trans (hdcovRaw_left a b hx.2),
+   fun hx => (hdcov_of_mem a b ⟨(mode_nonneg _ _).trans hx.1, hx.2⟩).trans (hdcovRaw_right' a b hab ha hb hx.1),
+   (hdcov_of_mem a b (clamp01_mem x)).symm⟩
+
+/-- **`hdcov` is the coverage of the smallest highest-density interval containing `x`** (`a, b ≥ 2`, `0 < x ≤ m`): the
+level set `[x, partnerR x]` has mass `hdcov a b x`, and every interval `[u,v] ⊆ [0,1]` of at least that mass is at least as
+long -/
+theorem hd_coverage_is_mass_of_shortest_interval_left (a b : ℕ) (ha : 2 ≤ a) (hb : 2 ≤ b) (x : ℝ) (hx0 : 0 < x)
+    (hxm : x ≤ mode (a - 1) (b - 1)) (u v : ℝ) (hu : 0 ≤ u) (huv : u ≤ v) (hv : v ≤ 1)
+    (hmass : hdcov a b x ≤ G a b v - G a b u) : partnerR (a - 1) (b - 1) x - x ≤ v - u :=
+  hd_interval_shortest_left a b ha hb hx0 hxm u v hu huv hv
+    ((hdcov_of_mem a b ⟨hx0.le, hxm.trans (mode_le_one _ _)⟩).symm.trans_le hmass)
+
+/-- … and for `m ≤ x < 1` -/
+theorem hd_coverage_is_mass_of_shortest_interval_right (a b : ℕ) (ha : 2 ≤ a) (hb : 2 ≤ b) (x : ℝ)
+    (hmx : mode (a - 1) (b - 1) ≤ x) (hx1 : x < 1) (u v : ℝ) (hu : 0 ≤ u) (huv : u ≤ v) (hv : v ≤ 1)
+    (hmass : hdcov a b x ≤ G a b v - G a b u) : x - partnerL (a - 1) (b - 1) x ≤ v - u :=
+  hd_interval_shortest_right a b ha hb hmx hx1 u v hu huv hv
+    ((hdcov_of_mem a b ⟨(mode_nonneg _ _).trans hmx, hx1.le⟩).symm.trans_le hmass)
+
+/-- **C15: the highest-density coverage function is V-shaped about the mode** — for integers `a, b ≥ 1`, not both `1`:
+strictly decreasing on `[0,m]`, strictly increasing on `[m,1]`, `0` at the mode, values in `[0,1]` -/
+theorem hd_coverage_v_shaped (a b : ℕ) (ha : 0 < a) (hb : 0 < b) (hab : 2 < a + b) :
+    StrictAntiOn (hdcov a b) (Set.Icc 0 (mode (a - 1) (b - 1)))
+      ∧ StrictMonoOn (hdcov a b) (Set.Icc (mode (a - 1) (b - 1)) 1)
+      ∧ hdcov a b (mode (a - 1) (b - 1)) = 0
+      ∧ ∀ x, 0 ≤ hdcov a b x ∧ hdcov a b x ≤ 1 :=
+  ⟨hdcov_strictAntiOn a b hab ha hb, hdcov_strictMonoOn a b hab ha hb,
+   (hdcov_of_mem a b ⟨mode_nonneg _ _, mode_le_one _ _⟩).trans (hdcovRaw_mode a b hab ha hb),
+   fun x => hdcovRaw_mem_unit a b hab ha hb (clamp01_mem x)⟩
+
+/-- end values: `hdcov 0 = 1` for `a ≥ 2`, `hdcov 1 = 1` for `b ≥ 2` (the density vanishes there: the level set is `[0,1]`) -/
+theorem hd_coverage_ends (a b : ℕ) :
+    (2 ≤ a → 0 < b → hdcov a b 0 = 1) ∧ (0 < a → 2 ≤ b → hdcov a b 1 = 1) :=
+  ⟨fun ha hb => (hdcov_of_mem a b ⟨le_rfl, zero_le_one⟩).trans (hdcovRaw_zero a b ha hb),
+   fun ha hb => (hdcov_of_mem a b ⟨zero_le_one, le_rfl⟩).trans (hdcovRaw_one a b ha hb)⟩
+
+/-- the monotone cases (first and last order statistic): for `a = 1` the density decreases, the level set of `x` is `[0,x]`
+and `hdcov = G`; for `b = 1` the density increases, the level set is `[x,1]` and `hdcov = 1 − G` -/
+theorem hd_coverage_monotone_cases (k : ℕ) (hk : 2 ≤ k) (x : ℝ) (hx : x ∈ Set.Icc (0:ℝ) 1) :
+    hdcov 1 k x = G 1 k x ∧ hdcov k 1 x = 1 - G k 1 x :=
+  ⟨(hdcov_of_mem 1 k hx).trans (hdcovRaw_a_one k hk hx), (hdcov_of_mem k 1 hx).trans (hdcovRaw_b_one k hk hx)⟩
+
+/-- `hdcov a b` is a measurable function on `ℝ` -/
+theorem hd_coverage_measurable (a b : ℕ) (ha : 0 < a) (hb : 0 < b) (hab : 2 < a + b) : Measurable (hdcov a b) :=
+  measurable_hdcov a b hab ha hb
+
+/-- **`beta.hdcov` brackets `hdcov`** — `hd_coverage_bracket_left/right` with their hypotheses about the level-set end
+discharged (`y* = partnerR x` resp. `partnerL x`): for every rational `x ∈ [0,1]` off the mode and every number of bisection
+steps, the exact rational bracket the driver returns contains `hdcov a b x` -/
+theorem hd_coverage_bracket_contains_hdcov (a b : ℕ) (ha : 0 < a) (hb : 0 < b) (hab : 2 < a + b) (x : ℚ) (steps : ℕ)
+    (hx0 : 0 ≤ x) (hx1 : x ≤ 1) (hne : x ≠ modeQ a b) :
+    (((hdCoverageBracket a b x steps).1 : ℚ) : ℝ) ≤ hdcov a b (x : ℝ)
+      ∧ hdcov a b (x : ℝ) ≤ (((hdCoverageBracket a b x steps).2 : ℚ) : ℝ) :=
+  (lt_or_gt_of_ne hne).elim (fun h => hdCoverageBracket_hdcov_left a b ha hb hab x steps hx0 h)
+    (fun h => hdCoverageBracket_hdcov_right a b ha hb hab x steps hx1 h)
+
+/-- non-vacuity / sanity: Beta(2,2), `x = 1/4`: the partner is `3/4` and `hdcov 2 2 (1/4) = G(3/4) − G(1/4)` -/
+example : hdcov 2 2 (1/4) = G 2 2 (3/4) - G 2 2 (1/4) := by
+  have hm : mode (2 - 1) (2 - 1) = 1 / 2 := by unfold mode; norm_num
+  have hx : (1/4 : ℝ) ∈ Set.Icc 0 (mode (2 - 1) (2 - 1)) := by rw [hm]; constructor <;> norm_num
+  have hy : (3/4 : ℝ) ∈ Set.Icc (mode (2 - 1) (2 - 1)) 1 := by rw [hm]; constructor <;> norm_num
+  rw [(hdcov_spec 2 2 (by norm_num) (by norm_num) (by norm_num) (1/4)).1 hx,
+    ← partnerR_unique (2 - 1) (2 - 1) (by norm_num) hx hy (by unfold g; norm_num)]
+
+end hdcov
 
 /-! ### the two bisection loops -/
 
